@@ -94,8 +94,32 @@ MidConfig(base, prefix) ==
 SlowCut(o) == LET I == {i \in 1..Len(o) : o[i].k = "act" /\ o[i].a \in SlowNames}
               IN IF I = {} THEN 0 ELSE CHOOSE i \in I : \A x \in I : x <= i
 
-Commit(st, step, t, tm, bz, bzs, sq) ==
-  LET slowNow == st.slow > 0
+\* Services that are PLAIN callables (harness kinds "ok" / "fail"): the task created at the invocation runs as soon
+\* as the consumer really suspends - when it blocks on the empty queue or in a slow action, i.e. at the end of the
+\* driver step - and the callable has returned / raised at once: its outcome is sent then and there.
+SvcKind(inv) == LET src == InvRec(inv).src IN IF src \in DOMAIN D.serviceKind THEN D.serviceKind[src] ELSE "driver"
+RECURSIVE Inst(_, _, _)
+Inst(st, bz, n) ==
+  LET o == st.out
+      pend == {i \in 1..Len(o) :
+                 /\ o[i].k = "invoke" /\ SvcKind(o[i].b) \in {"ok", "fail"}
+                 /\ ~\E j \in (i + 1)..Len(o) : \/ (o[j].k \in {"svc_done", "svc_error"} /\ o[j].a = o[i].b)
+                                                  \/ (o[j].k = "cancel" /\ o[j].a = o[i].a)}
+  IN IF n = 0 \/ pend = {} \/ st.status \in {"stopped"} THEN st
+     ELSE LET i == CHOOSE x \in pend : \A y \in pend : x <= y
+              inv == o[i].b
+              ok == SvcKind(inv) = "ok"
+              ev == [type |-> IF ok THEN D.doneInvokeEv[inv] ELSE D.errorInvokeEv[inv], kind |-> "done", src |-> inv]
+              st0 == Log(Enqueue(st, ev, "async"), L(IF ok THEN "svc_done" ELSE "svc_error", inv, "", {}))
+              st1 == IF ok \/ InvRec(inv).hasOnError \/ st0.status \notin {"running", "uninitialized"} THEN st0
+                     ELSE Log(Log([st0 EXCEPT !.status = "error"], L("error", "RuntimeError", "", {})),
+                              L("subscriber", "", "", st0.config))
+              suspended == st.slow > 0 \/ bz > 0
+          IN Inst(IF suspended THEN st1 ELSE AsyncLoopFrom(st1, st.gv, D.fuel, TRUE), bz, n - 1)
+
+Commit(stRaw, step, t, tm, bz, bzs, sq) ==
+  LET st == IF step.op = "stop" \/ EngineS = "sync" THEN stRaw ELSE Inst(stRaw, bz, 6)
+      slowNow == st.slow > 0
       cut == IF slowNow THEN SlowCut(st.out) ELSE 0
       \* what the suspended macrostep does after the slow action (later exits, entries, arming) happens - and is
       \* booked - when it resumes
@@ -208,14 +232,14 @@ DAdvance ==
 DResolve ==
   /\ EngineS = "async"
   /\ status # "uninitialized"
-  /\ \E v \in svcs : \E gv \in GVs :
+  /\ \E v \in {x \in svcs : SvcKind(x.inv) = "driver"} : \E gv \in GVs :
        LET ev == [type |-> D.doneInvokeEv[v.inv], kind |-> "done", src |-> v.inv]
            st0 == Log(Enqueue([SPack EXCEPT !.gv = gv], ev, "async"), L("svc_done", v.inv, "", {}))
        IN Commit(RunToIdle(st0), [op |-> "resolve", ev |-> v.inv, gv |-> gv, dt |-> 0], now, timers, busy, busySeq, seq)
 DReject ==
   /\ EngineS = "async"
   /\ status # "uninitialized"
-  /\ \E v \in svcs : \E gv \in GVs :
+  /\ \E v \in {x \in svcs : SvcKind(x.inv) = "driver"} : \E gv \in GVs :
        LET ev == [type |-> D.errorInvokeEv[v.inv], kind |-> "done", src |-> v.inv]
            st0 == Log(Enqueue([SPack EXCEPT !.gv = gv], ev, "async"), L("svc_error", v.inv, "", {}))
            st1 == IF InvRec(v.inv).hasOnError \/ st0.status \notin {"running", "uninitialized"} THEN st0
